@@ -158,6 +158,7 @@ func (c *Conn) close() error {
 	}
 	runtime.SetFinalizer(c, nil)
 	close(c.closed)
+	verifEvent(c, "sync:set-closed", nil)
 
 	// Have to close after c.closed is closed to ensure any goroutine that wakes up
 	// from the connection being closed also sees that c.closed is closed and returns
@@ -171,6 +172,7 @@ func (c *Conn) close() error {
 
 func (c *Conn) timeoutLoop() {
 	defer close(c.timeoutLoopDone)
+	defer verifEvent(c, "sync:signal-tld", nil)
 
 	readCtx := context.Background()
 	writeCtx := context.Background()
@@ -256,11 +258,13 @@ func newMu(c *Conn) *mu {
 
 func (m *mu) forceLock() {
 	m.ch <- struct{}{}
+	verifEvent(m.c, "sync:forcelock", m)
 }
 
 func (m *mu) tryLock() bool {
 	select {
 	case m.ch <- struct{}{}:
+		verifEvent(m.c, "sync:trylock", m)
 		return true
 	default:
 		return false
@@ -280,15 +284,18 @@ func (m *mu) lock(ctx context.Context) error {
 		select {
 		case <-m.c.closed:
 			// Make sure to release.
+			verifEvent(m.c, "sync:lock-abort", m)
 			m.unlock()
 			return net.ErrClosed
 		default:
 		}
+		verifEvent(m.c, "sync:lock", m)
 		return nil
 	}
 }
 
 func (m *mu) unlock() {
+	verifEvent(m.c, "sync:unlock", m)
 	select {
 	case <-m.ch:
 	default:
